@@ -78,7 +78,7 @@ func subPackets(thorough bool) [][]subEntry {
 
 // C07: SUBSCRIBE/UNSUBSCRIBE always acknowledged and effective at the ack.
 func C07(c *core.Ctx) {
-	c.Rep.Bound = "ENUM x HIST: every SUBSCRIBE with 1 entry over 8 filters (3 invalid) x QoS 0-3, pairs/triples over a reduced set (all pairs in thorough), lists of 4/5/8/16 entries (all valid, one invalid at each position, out-of-range QoS, repeated, overlapping), under server QoS cap 2 and 1; each followed by probe publishes, the matching UNSUBSCRIBE and probes again; plus all orders of sub/unsub/pub on one connection to depth 4/5"
+	c.Rep.Bound = "ENUM x HIST: every SUBSCRIBE with 1 entry over 8 filters (3 invalid) x QoS 0-3, pairs/triples over a reduced set (all pairs in thorough), lists of 4/5/8/16 entries (all valid, one invalid at each position, out-of-range QoS, repeated, overlapping), under server QoS cap 2 and 1; each followed by probe publishes, the matching UNSUBSCRIBE and probes again; plus all orders of sub/unsub/pub on one connection to depth 4/5; SCHED: a client thread publishes a probe the moment the SUBACK / UNSUBACK has arrived (1 and 2 filters), every schedule of the broker goroutines up to 2 (quick) / 3 (thorough) deviations"
 	c.Rep.Rule = "per packet: exactly one SUBACK with the same id and one code per entry in order (min(requested, cap) or 0x80) or the connection is closed; probes on a, a/b, b, t/0.. must be delivered according to exactly the granted entries, and not at all after the UNSUBACK; non-trivial = packets with at least one granted entry"
 	comps := map[string]bool{"acks": true, "route": true, "closed": true, "stream": true}
 	pkts := subPackets(c.Thorough())
@@ -176,6 +176,10 @@ func C07(c *core.Ctx) {
 	}
 	seq := &HistSpec{Name: "orders", Ops: ops, Depth: depth, Dedup: false, Comps: comps, Prefix: []Action{conn("P", "p", true), conn("S", "s", true)}}
 	seq.Search(c)
+	if c.HasViolation() || c.Expired() {
+		return
+	}
+	c07sched(c)
 }
 
 func init() { core.Register("C07", C07) }
